@@ -10,7 +10,7 @@
 (***************************************************************************)
 EXTENDS Integers, Sequences
 
-LIM == 20000          \* |n|, d <= LIM  =>  every intermediate product < 2^31
+LIM == 32000          \* |n|, d <= LIM  =>  every intermediate product and sum of two products < 2^31
 
 AbsI(x) == IF x < 0 THEN -x ELSE x
 RECURSIVE GCD(_, _)
